@@ -282,6 +282,64 @@ func runTwoClause(r *common.Run, st *stats) {
 	r.Set("two_clause_graphs", len(graphs))
 }
 
+
+// ---- three-clause exploration ---------------------------------------------------
+
+// threeClauseVocab: constants or bindings in every position with at most two binding slots per
+// clause, plus the anchor binding next to a constant; every ordered triple of them under every
+// sharing pattern of names (<= 6 slots: at most 203 patterns per triple).
+func threeClauseVocab() []bqlm.Clause {
+	cs, cp, co := bqlm.Term{Kind: bqlm.Const, N: bqlm.NA}, bqlm.Term{Kind: bqlm.Const, P: bqlm.PImm}, bqlm.Term{Kind: bqlm.Const, N: bqlm.NB}
+	b := bqlm.Term{Kind: bqlm.Bind}
+	an := bqlm.Term{Kind: bqlm.AnchorBind, ID: "p"}
+	return []bqlm.Clause{
+		{S: b, P: cp, O: b}, {S: cs, P: cp, O: b}, {S: b, P: cp, O: co}, {S: cs, P: b, O: b}, {S: b, P: b, O: co},
+		{S: cs, P: b, O: co}, {S: cs, P: cp, O: co}, {S: cs, P: an, O: b}, {S: b, P: an, O: co},
+	}
+}
+
+// indices into twoClauseGraphs()
+func threeClauseGraphs(all bool) []int {
+	if all {
+		return []int{1, 2, 3, 4, 5, 6, 7, 8, 9}
+	}
+	return []int{2, 3, 6, 7}
+}
+
+func runThreeClause(r *common.Run, st *stats) {
+	voc := threeClauseVocab()
+	gidx := threeClauseGraphs(r.Thorough())
+	var graphs []map[string][]*triple.Triple
+	for _, gi := range gidx {
+		graphs = append(graphs, twoClauseGraphs()[gi])
+	}
+	stores := make([]storage.Store, len(graphs))
+	for i, g := range graphs {
+		stores[i] = bqlm.NewStore(g)
+	}
+	n := len(voc)
+	var shapes int64
+	common.ParallelFor(n*n*n, func(x int) {
+		i, j, l := x/(n*n), (x/n)%n, x%n
+		if r.OutOfTime() {
+			return
+		}
+		for k, named := range bqlm.Namings([]bqlm.Clause{voc[i], voc[j], voc[l]}) {
+			if len(bqlm.AllBindings(named)) == 0 {
+				continue
+			}
+			q := &bqlm.Query{From: []string{"?g"}, Where: named, Proj: bqlm.SelectAll(named)}
+			atomic.AddInt64(&shapes, 1)
+			for gi := range graphs {
+				v := bqlm.Compare(q, stores[gi], graphs[gi], 0)
+				report(r, st, "three", fmt.Sprintf("three:%d:%d:%d:%d:%d", i, j, l, k, gidx[gi]), q, graphs[gi], v)
+			}
+		}
+	})
+	r.Set("three_clause_shapes", int(shapes))
+	r.Set("three_clause_graphs", len(graphs))
+}
+
 // ---- time bounds taken from bindings of an earlier clause ---------------------------------
 
 func runBoundAliases(r *common.Run, st *stats) {
@@ -452,6 +510,15 @@ func replay(raw json.RawMessage) (bool, string) {
 		g := aliasGraphs()[n4]
 		v := bqlm.Compare(q, bqlm.NewStore(g), g, 0)
 		return v.Ok, v.Detail
+	case "three":
+		voc := threeClauseVocab()
+		var n4 int
+		fmt.Sscan(parts[5], &n4)
+		named := bqlm.Namings([]bqlm.Clause{voc[n[0]], voc[n[1]], voc[n[2]]})[n[3]]
+		q := &bqlm.Query{From: []string{"?g"}, Where: named, Proj: bqlm.SelectAll(named)}
+		g := twoClauseGraphs()[n4]
+		v := bqlm.Compare(q, bqlm.NewStore(g), g, 0)
+		return v.Ok, v.Detail
 	case "two":
 		base := bqlm.BaseClauses()
 		named := bqlm.Namings([]bqlm.Clause{base[n[0]], base[n[1]]})[n[2]]
@@ -471,6 +538,7 @@ func main() {
 	r.Replayer("alias", replay)
 	r.Replayer("two-split", replay)
 	r.Replayer("boundalias", replay)
+	r.Replayer("three", replay)
 	r.MaybeReplay()
 	// validate the oracle itself against the maintainers' compliance stories
 	nOK, nSkip, verr := bqlm.ValidateAgainstStories("/repo/examples/compliance")
@@ -484,6 +552,7 @@ func main() {
 	runTwoClause(r, st)
 	runTwoClauseAliases(r, st)
 	runBoundAliases(r, st)
+	runThreeClause(r, st)
 	r.Set("evaluations", int(st.evals))
 	r.Set("accepted_by_parser", int(st.accepted))
 	r.Set("distinct_nontrivial", int(st.nontrivial))
